@@ -110,6 +110,9 @@ func run(c *hc.Ctx) {
 			if msg != "" {
 				first := strings.SplitN(msg, "\n", 2)[0]
 				kind := "panic:Windings:" + first
+				if illConditioned(pt, cs) {
+					kind += "+near-level"
+				}
 				if open {
 					kind += "+open"
 				}
